@@ -427,6 +427,7 @@ func (w *World) driverSolo(rounds int, ext bool) {
 		round uint32
 	}
 	var pool []fresh
+	var lateLocked *fresh
 	idx := func(b int) uint32 {
 		vi, _ := n.RS().Validators.GetByAddress(w.Addrs[b])
 		return uint32(vi)
@@ -450,15 +451,26 @@ func (w *World) driverSolo(rounds int, ext bool) {
 		proposer := w.valIndexOfAddr(propAddr)
 		nProp := 3 // none, fresh+data, fresh without data
 		nStale := 2
+		nPrev := 4
 		if ext {
-			// extended shapes: (3) an earlier fresh block proposed AGAIN with POLRound = its round, and the stale
-			// polka arriving only AFTER x has prevoted in this round (stale == 2)
-			nProp, nStale = 4, 3
+			// extended shapes: (3) an earlier fresh block proposed AGAIN with POLRound = its round, (4) a FRESH block
+			// proposed with POLRound = the previous round (whatever that round's polka was for); the stale polka
+			// arriving only AFTER x has prevoted in this round (stale == 2); prevote pattern (4): the polka for x's
+			// locked block completes only after x has left the round (one prevote in time, two in the next round)
+			nProp, nStale, nPrev = 5, 3, 5
 		}
 		if proposer == x {
 			nProp = 1
 		}
-		const nPrev = 4
+		// the late half of a polka for the locked block of the previous round arrives now
+		if lateLocked != nil {
+			for _, b := range others[1:] {
+				if n.Failed == nil && n.RS().Height == h {
+					w.Deliver(x, w.byzVote(b, idx(b), kproto.PrevoteType, h, lateLocked.round, lateLocked.id, "solo"))
+				}
+			}
+			lateLocked = nil
+		}
 		costs := make([]int, nProp*nPrev*nStale)
 		ch := w.X.Choose(costs, fmt.Sprintf("solo-round-%d", r))
 		sp, pv, st := ch%nProp, (ch/nProp)%nPrev, (ch/(nProp*nPrev))%nStale
@@ -497,7 +509,11 @@ func (w *World) driverSolo(rounds int, ext bool) {
 		} else if sp > 0 {
 			bi := w.byzBlock(proposer, x, fmt.Sprintf("F%d", r))
 			if bi != nil {
-				msgs := w.byzProposal(proposer, bi, h, round, 0, "solo-proposal")
+				pol := uint32(0)
+				if sp == 4 && round > 1 {
+					pol = round - 1
+				}
+				msgs := w.byzProposal(proposer, bi, h, round, pol, "solo-proposal")
 				if sp == 2 {
 					msgs = msgs[:1] // the proposal without its parts
 				}
@@ -538,6 +554,12 @@ func (w *World) driverSolo(rounds int, ext bool) {
 			}
 		case 3:
 			polka(round, types.BlockID{})
+		case 4:
+			if lb := n.RS().LockedBlock; lb != nil {
+				id := types.BlockID{Hash: lb.Hash(), PartsHeader: n.RS().LockedBlockParts.Header()}
+				w.Deliver(x, w.byzVote(others[0], idx(others[0]), kproto.PrevoteType, h, round, id, "solo"))
+				lateLocked = &fresh{id, round}
+			}
 		}
 		w.fireIf(x, stepPrevoteWait, round)
 		// precommits of the others: nil
